@@ -3,16 +3,17 @@ package main
 import (
 	"go/token"
 	"go/types"
+	"os"
 	"strings"
 
 	"golang.org/x/tools/go/ssa"
 )
 
 func init() {
-	register(&propDef{
+	p := &propDef{
 		ID:      "C18",
 		Level:   "other",
-		Explain: "Structural necessary conditions of bounded, draining shutdown, decided per implementation / per path: (D1) every repo implementation of proxy.Server.Shutdown(ctx) uses its ctx (it reaches a call or a receive) and never calls an unbounded blocking primitive (grpc GracefulStop, WaitGroup.Wait) synchronously — such a call must run in a goroutine that is raced against ctx.Done(); (D2) proxy.Shutdown gives each server context.WithTimeout(Background, timeout) with the timeout parameter, and main passes cfg.Proxy.ShutdownWait; (J1) in proxy.Shutdown wg.Add precedes each go, Done is deferred in the goroutine, Wait follows the loop, and the registry lock is released before waiting; (L1) every Lock in packages proxy and proxy/tcp is released on every path to every return; (O1) tcp.Server.Shutdown closes the listeners before waiting on ctx and the connections after; (R1) in package proxy only serve() (which registers the server) and the composite server call Serve on a proxy.Server; (E1) the exit callback deregisters, sleeps the grace period, then calls proxy.Shutdown, in that order. (R3) proxy.Shutdown empties the server registry inside the critical section that snapshots it, so draining servers are not reachable by CloseProxy/Close; (X1) package exit does not release its signal registration (signal.Stop/Reset/Ignore) on a path that leads to the exit-handler call; Not decided: wall-clock bounds (timing).",
+		Explain: "Structural necessary conditions of bounded, draining shutdown, decided per implementation / per path; sites are found by ROLE inside REGIONS (an entry plus the helpers, closures and methods it runs), not by the name of the function that happens to contain them. (D1) every repo implementation of proxy.Server.Shutdown(ctx) lets its ctx reach something that can bound it (a receive/select on ctx.Done(), or a call that is handed the context - repository callees are looked into, logging does not count); it runs no unbounded blocking primitive (grpc GracefulStop, WaitGroup.Wait of a long-lived WaitGroup, Cond.Wait) synchronously - called, deferred or inside a helper; the join of a local WaitGroup whose goroutines are themselves bounded is not such a wait - and it does not wait unconditionally (receive or select without a ctx.Done()/deadline case) on a channel that is signalled only after such a primitive returned in a goroutine, unless a forced stop (grpc Stop) precedes the wait; (D2) every Server.Shutdown invocation in the region of proxy.Shutdown receives a context from WithTimeout/WithDeadline(Background, <derived from the timeout parameter>), no cancel function created outside is handed (captured or passed) to the per-server goroutines, and every caller passes cfg.Proxy.ShutdownWait; (J1) for the go statement(s) whose goroutine performs the server Shutdown: wg.Add precedes it in the same iteration (or once with a computed count; in the function of the go or before every call of the helper containing it), Done runs on every way out of the goroutine, Wait follows on every path to return (possibly after the call of the helper) and no loop contains both the start of a server shutdown and the Wait, and no mutex is held where the Wait (or a helper that waits) is executed; a join over a channel is accepted when the region uses no WaitGroup; (L1) every Lock in packages proxy and proxy/tcp is released on every path to every return (Unlock called, deferred, in a deferred closure or in a helper; a pure acquire helper is judged at its call sites; mutexes are identified by the type/variable that holds them); (O1) in tcp.Server.Shutdown the elements of the collection of net.Listener are closed on every path before the wait on ctx.Done(), no element of the collection of net.Conn is closed before it and they are closed on every path after it (collections found by type, closes and wait may sit in helpers or be inlined); (R1) the registry of running servers (a map of Server in package proxy, variable or field) is written only under a lock, every Serve call on a server in package proxy outside the Serve methods of composite servers is preceded on every path by a registration (in the function, in a helper, or before every call site), and every ListenAndServe* reaches such a call; (E1) the function handed to exit.Listen deregisters, sleeps the grace period (or skips it on a branch decided by the grace period itself), then calls proxy.Shutdown, in that order - each step directly or in a helper / local closure; (R3) proxy.Shutdown empties the registry inside the critical section that reads it (same lock hold, possibly in helpers called under it); (X1) package exit does not release its signal registration (signal.Stop/Reset/Ignore, directly or in a helper, not deferred) on a path that reaches the exit-handler call without a new signal.Notify. Not decided: wall-clock bounds (timing).",
 		Run:     runC18,
 		Trusted: []string{"net/http.Server.Shutdown honours its context", "context.WithTimeout cancels after the timeout", "grpc.Server.Stop forcibly closes open streams"},
 		Mutants: []mutant{
@@ -34,14 +35,85 @@ func init() {
 			{Name: "main passes the grace period as wait", File: "main.go", Old: "proxy.Shutdown(cfg.Proxy.ShutdownWait)", New: "proxy.Shutdown(cfg.Proxy.DeregisterGracePeriod)", Expect: "C18.D2"},
 			{Name: "waiting while holding the registry lock", File: "proxy/serve.go", Old: "\tservers = make(map[string]Server)\n\tmu.Unlock()\n\n\tvar wg sync.WaitGroup", New: "\tservers = make(map[string]Server)\n\tdefer mu.Unlock()\n\n\tvar wg sync.WaitGroup", Expect: "C18.J1"},
 			{Name: "benign: WithDeadline instead of WithTimeout", File: "proxy/serve.go", Old: "context.WithTimeout(context.Background(), timeout)\n\t\t\tdefer cancel()\n\t\t\tsrv.Shutdown(ctx)", New: "context.WithDeadline(context.Background(), time.Now().Add(timeout))\n\t\t\tdefer cancel()\n\t\t\tsrv.Shutdown(ctx)", Expect: ""},
+
+			// ---- behaviour-preserving rewrites of kinds the benign corpus does not contain: all must stay silent
+			{Name: "benign: fan-out in a helper, goroutine is a named function, Add(len) once, registry swapped without copy loop, parent ctx in a local", File: "proxy/serve.go", Old: c18SrcShutdown, New: c18SrcShutdownSplit, Expect: ""},
+			{Name: "benign: explicit Done/cancel at the end of the goroutine, clear(registry), new(WaitGroup), wait in a local", File: "proxy/serve.go", Old: c18SrcShutdown, New: c18SrcShutdownExplicitDone, Expect: ""},
+			{Name: "benign: snapshot and reset in two helpers called under one lock hold", File: "proxy/serve.go", Old: c18SrcShutdown, New: c18SrcShutdownHelpersUnderLock, Expect: ""},
+			{Name: "benign: registry and its mutex wrapped into a small type with methods", File: "proxy/serve.go", Old: c18SrcRegistryBlock, New: c18SrcRegistryWrapped, More: []repl{{c18SrcServeHead, c18SrcServeHeadWrapped}}, Expect: ""},
+			{Name: "benign: serve renamed, registration in a helper with deferred unlock", File: "proxy/serve.go", Old: "return serve(", New: "return run(", All: true, More: []repl{{c18SrcServeHead, c18SrcServeHeadRegisterHelper}}, Expect: ""},
+			{Name: "benign: registry variable renamed", File: "proxy/serve.go", Old: "servers", New: "live", All: true, Expect: ""},
+			{Name: "benign: ListenAndServeHTTP reaches serve through a helper", File: "proxy/serve.go", Old: "\t\tTLSConfig:    cfg,\n\t}\n\treturn serve(ln, srv)\n}\n\nfunc ListenAndServePrometheus(", New: "\t\tTLSConfig:    cfg,\n\t}\n\treturn serveHTTP(ln, srv)\n}\n\nfunc serveHTTP(ln net.Listener, srv *http.Server) error {\n\treturn serve(ln, srv)\n}\n\nfunc ListenAndServePrometheus(", Expect: ""},
+			{Name: "benign: unlock in a deferred closure", File: "proxy/serve.go", Old: "\tmu.Lock()\n\tdefer mu.Unlock()\n\tif srv, ok := servers[address]; ok {", New: "\tmu.Lock()\n\tdefer func() {\n\t\tmu.Unlock()\n\t}()\n\tif srv, ok := servers[address]; ok {", Expect: ""},
+			{Name: "benign: gRPC Shutdown delegates to an unexported method, goroutine is a method, race in a helper", File: "proxy/grpc_handler.go", Old: c18SrcGrpcShutdown, New: c18SrcGrpcShutdownDelegated, Expect: ""},
+			{Name: "benign: completion of GracefulStop awaited after the forced Stop", File: "proxy/grpc_handler.go", Old: c18SrcGrpcShutdown, New: c18SrcGrpcShutdownAwaitAfterStop, Expect: ""},
+			{Name: "benign: tcp listeners field renamed, closeListeners inlined, select on Done, branch turned around", File: "proxy/tcp/server.go", Old: "s.listeners", New: "s.lns", All: true, More: []repl{{"\tlisteners []net.Listener\n", "\tlns       []net.Listener\n"}, {c18SrcTCPShutdown, c18SrcTCPShutdownInlined}}, Expect: ""},
+			{Name: "benign: tcp wait in a helper, one Close call after it", File: "proxy/tcp/server.go", Old: c18SrcTCPShutdown, New: c18SrcTCPShutdownWaitHelper, Expect: ""},
+			{Name: "benign: tcp conns field renamed", File: "proxy/tcp/server.go", Old: "s.conns", New: "s.open", All: true, More: []repl{{"\tconns     map[net.Conn]bool\n", "\topen      map[net.Conn]bool\n"}}, Expect: ""},
+			{Name: "benign: lock/unlock wrapper methods", File: "proxy/tcp/server.go", Old: c18SrcTCPCloseConns, New: c18SrcTCPCloseConnsWrappers, Expect: ""},
+			{Name: "benign: exit handler steps in a local closure, guard around the sleep, durations in locals", File: "main.go", Old: c18SrcExitHandler, New: c18SrcExitHandlerLocalClosure, Expect: ""},
+			{Name: "benign: deferred signal.Stop", File: "exit/listen.go", Old: "syscall.SIGTERM, syscall.SIGHUP)\n", New: "syscall.SIGTERM, syscall.SIGHUP)\n\t\t\tdefer signal.Stop(sigchan)\n", Expect: ""},
+			{Name: "benign: exit handler call in a helper", File: "exit/listen.go", Old: c18SrcExitCall, New: c18SrcExitCallHelper, Expect: ""},
+			{Name: "benign: registration released on SIGHUP and taken again by the next iteration", File: "exit/listen.go", Old: "\t\t\t\t\tlog.Print(\"[INFO] Caught SIGHUP. Ignoring\")\n\t\t\t\t\tcontinue\n", New: "\t\t\t\t\tlog.Print(\"[INFO] Caught SIGHUP. Ignoring\")\n\t\t\t\t\tsignal.Stop(sigchan)\n\t\t\t\t\tcontinue\n", Expect: ""},
+
+			{Name: "benign: composite server joins its children with a local WaitGroup", File: "proxy/inetaf_tcpproxy.go", Old: c18SrcInetAfFanOut, New: c18SrcInetAfFanOutWaitGroup, More: []repl{{"\t\"net/http\"\n", "\t\"net/http\"\n\t\"sync\"\n"}}, Expect: ""},
+			{Name: "benign: proxy.Shutdown joins over a channel", File: "proxy/serve.go", Old: c18SrcShutdown, New: c18SrcShutdownChanJoin, Expect: ""},
+			{Name: "benign: tcp connections tracked in a small wrapper type", File: "proxy/tcp/server.go", Old: "s.conns", New: "s.conns.m", All: true, More: []repl{{"\tconns     map[net.Conn]bool\n}\n", "\tconns     connSet\n}\n\ntype connSet struct{ m map[net.Conn]bool }\n"}}, Expect: ""},
+			{Name: "benign: serve inlined into ListenAndServeTCP", File: "proxy/serve.go", Old: "\t\tWriteTimeout: l.WriteTimeout,\n\t}\n\treturn serve(ln, srv)\n}\n\nfunc serve(", New: "\t\tWriteTimeout: l.WriteTimeout,\n\t}\n\tmu.Lock()\n\tservers[ln.Addr().String()] = srv\n\tmu.Unlock()\n\treturn srv.Serve(ln)\n}\n\nfunc serve(", Expect: ""},
+			{Name: "local WaitGroup join of a goroutine that runs GracefulStop", File: "proxy/grpc_handler.go", Old: c18SrcGrpcShutdown, New: c18SrcGrpcShutdownLocalJoin, Expect: "C18.D1"},
+			{Name: "channel join received inside the fan-out loop", File: "proxy/serve.go", Old: c18SrcShutdown, New: c18SrcShutdownChanJoinSerial, Expect: "C18.J1"},
+
+			{Name: "benign: closure turned into methods of a small struct carrying WaitGroup and wait; context from a helper", File: "proxy/serve.go", Old: c18SrcShutdown, New: c18SrcShutdownDrainer, Expect: ""},
+			{Name: "struct shape: nobody waits", File: "proxy/serve.go", Old: c18SrcShutdown, New: c18SrcShutdownDrainerNoWait, Expect: "C18.J1"},
+			{Name: "benign: tcp connections tracked by their concrete type", File: "proxy/tcp/server.go", Old: "\t\tc, err := l.Accept()\n\t\tif err != nil {\n\t\t\treturn err\n\t\t}\n\t\tc = &conn{\n\t\t\tc:            c,", New: "\t\traw, err := l.Accept()\n\t\tif err != nil {\n\t\t\treturn err\n\t\t}\n\t\tc := &conn{\n\t\t\tc:            raw,", More: []repl{{"conns     map[net.Conn]bool", "conns     map[*conn]bool"}, {"s.conns = map[net.Conn]bool{}", "s.conns = map[*conn]bool{}"}}, Expect: ""},
+			// ---- breaks written in the refactored shapes: the rewritten rules must still see them
+			{Name: "split shape: per-server timeout is a constant", File: "proxy/serve.go", Old: c18SrcShutdown, New: c18SrcShutdownSplitConstTimeout, Expect: "C18.D2"},
+			{Name: "split shape: cancel of a shared context passed to the per-server goroutines", File: "proxy/serve.go", Old: c18SrcShutdown, New: c18SrcShutdownSplitSharedCancel, Expect: "C18.D2"},
+			{Name: "split shape: Done not on every path of the goroutine", File: "proxy/serve.go", Old: c18SrcShutdown, New: c18SrcShutdownSplitNoDone, Expect: "C18.J1"},
+			{Name: "split shape: Wait inside the loop", File: "proxy/serve.go", Old: c18SrcShutdown, New: c18SrcShutdownSplitWaitInLoop, Expect: "C18.J1"},
+			{Name: "split shape: a return that skips Wait", File: "proxy/serve.go", Old: c18SrcShutdown, New: c18SrcShutdownSplitNoWait, Expect: "C18.J1"},
+			{Name: "split shape: Add after go", File: "proxy/serve.go", Old: c18SrcShutdown, New: c18SrcShutdownSplitAddAfterGo, Expect: "C18.J1"},
+			{Name: "split shape: helper that waits is called with the registry lock held", File: "proxy/serve.go", Old: c18SrcShutdown, New: c18SrcShutdownSplitLockHeld, Expect: "C18.J1"},
+			{Name: "registry snapshotted and emptied in two critical sections", File: "proxy/serve.go", Old: c18SrcShutdown, New: c18SrcShutdownTwoSections, Expect: "C18.R3"},
+			{Name: "registry emptied after the lock was released and retaken", File: "proxy/serve.go", Old: "\tservers = make(map[string]Server)\n\tmu.Unlock()\n\n\tvar wg sync.WaitGroup", New: "\tmu.Unlock()\n\tmu.Lock()\n\tservers = make(map[string]Server)\n\tmu.Unlock()\n\n\tvar wg sync.WaitGroup", Expect: "C18.R3"},
+			{Name: "server registered only after Serve returned", File: "proxy/serve.go", Old: c18SrcServeHead, New: c18SrcServeHeadRegisterAfter, Expect: "C18.R1"},
+			{Name: "registration helper without the lock", File: "proxy/serve.go", Old: c18SrcServeHead, New: c18SrcServeHeadRegisterUnlocked, Expect: "C18.R1"},
+			{Name: "only http servers are registered", File: "proxy/serve.go", Old: c18SrcServeHead, New: c18SrcServeHeadRegisterSometimes, Expect: "C18.R1"},
+			{Name: "gRPC server served through the interface without serve()", File: "proxy/serve.go", Old: "\t\tserver: grpc.NewServer(opts...),\n\t}\n\n\treturn serve(ln, srv)", New: "\t\tserver: grpc.NewServer(opts...),\n\t}\n\n\tvar s Server = srv\n\treturn s.Serve(ln)", Expect: "C18.R1"},
+			{Name: "GracefulStop deferred (runs synchronously at return)", File: "proxy/grpc_handler.go", Old: c18SrcGrpcShutdown, New: c18SrcGrpcShutdownDeferredGraceful, Expect: "C18.D1"},
+			{Name: "ctx only handed to a helper that logs it", File: "proxy/grpc_handler.go", Old: c18SrcGrpcShutdown, New: c18SrcGrpcShutdownCtxOnlyLogged, Expect: "C18.D1"},
+			{Name: "GracefulStop in a goroutine but its completion awaited unconditionally", File: "proxy/grpc_handler.go", Old: c18SrcGrpcShutdown, New: c18SrcGrpcShutdownAwaitUnbounded, Expect: "C18.D1"},
+			{Name: "inlined shape: listeners closed after the wait", File: "proxy/tcp/server.go", Old: "s.listeners", New: "s.lns", All: true, More: []repl{{"\tlisteners []net.Listener\n", "\tlns       []net.Listener\n"}, {c18SrcTCPShutdown, c18SrcTCPShutdownInlinedLate}}, Expect: "C18.O1"},
+			{Name: "a path after the wait leaves the connections open", File: "proxy/tcp/server.go", Old: c18SrcTCPShutdown, New: c18SrcTCPShutdownConnsLeftOpen, Expect: "C18.O1"},
+			{Name: "lock wrapper: a return between lock() and unlock()", File: "proxy/tcp/server.go", Old: c18SrcTCPCloseConns, New: c18SrcTCPCloseConnsWrappersLeak, Expect: "C18.L1"},
+			{Name: "local-closure shape: deregistration and grace period after proxy.Shutdown", File: "main.go", Old: c18SrcExitHandler, New: c18SrcExitHandlerLocalClosureLate, Expect: "C18.E1"},
+			{Name: "grace sleep skipped for SIGINT", File: "main.go", Old: c18SrcExitHandler, New: c18SrcExitHandlerSleepOnlyOnTerm, Expect: "C18.E1"},
+			{Name: "helper shape: signal.Reset inside the helper that calls the handler", File: "exit/listen.go", Old: c18SrcExitCall, New: c18SrcExitCallHelperReset, Expect: "C18.X1"},
+			{Name: "helper shape: registration released by a helper before the handler", File: "exit/listen.go", Old: c18SrcExitCall, New: c18SrcExitCallReleaseHelper, Expect: "C18.X1"},
 		},
-	})
+	}
+	// development aid: C18_MUTANT=<substring> restricts `verifcheck mutants C18` to the mutants whose name contains it
+	if want := os.Getenv("C18_MUTANT"); want != "" {
+		var keep []mutant
+		for _, m := range p.Mutants {
+			if strings.Contains(m.Name, want) {
+				keep = append(keep, m)
+			}
+		}
+		p.Mutants = keep
+	}
+	register(p)
 }
 
 var unboundedBlocking = map[string]bool{
 	"(*google.golang.org/grpc.Server).GracefulStop": true,
 	"(*sync.WaitGroup).Wait":                        true,
 	"(*sync.Cond).Wait":                             true,
+}
+
+// forcedStop: calls after which the work an unbounded wait waits for is known to end (Trusted).
+var forcedStop = map[string]bool{
+	"(*google.golang.org/grpc.Server).Stop": true,
 }
 
 func runC18(c *Ctx) {
@@ -58,18 +130,12 @@ func runC18(c *Ctx) {
 // shutdownImpls: repo methods named Shutdown with a single context.Context parameter on types implementing proxy.Server.
 func shutdownImpls(c *Ctx) []*ssa.Function {
 	var out []*ssa.Function
-	sp := c.spkg("proxy")
-	var iface *types.Interface
-	if sp != nil {
-		if t := sp.Type("Server"); t != nil {
-			iface, _ = t.Type().Underlying().(*types.Interface)
-		}
-	}
+	_, iface := c18ServerIface(c)
 	for _, f := range c.AllFns {
 		if f.Name() != "Shutdown" || f.Signature.Recv() == nil || f.Signature.Params().Len() != 1 {
 			continue
 		}
-		if typeStr(f.Signature.Params().At(0).Type()) != "context.Context" {
+		if !c18IsCtx(f.Signature.Params().At(0).Type()) {
 			continue
 		}
 		recv := f.Signature.Recv().Type()
@@ -81,168 +147,457 @@ func shutdownImpls(c *Ctx) []*ssa.Function {
 	return out
 }
 
-func runC18D1(c *Ctx) {
-	impls := shutdownImpls(c)
-	c.atLeast("C18.D1", "implementations of proxy.Server.Shutdown(ctx)", len(impls), 3)
-	for _, f := range impls {
-		ctx := f.Params[1]
-		// ctx must reach a call argument, an invoke receiver, or a receive
-		used := false
-		var visit func(v ssa.Value, depth int)
-		seen := map[ssa.Value]bool{}
-		visit = func(v ssa.Value, depth int) {
-			if seen[v] || depth > 6 {
-				return
-			}
-			seen[v] = true
-			refs := v.Referrers()
-			if refs == nil {
-				return
-			}
-			for _, r := range *refs {
-				switch x := r.(type) {
-				case *ssa.Call, *ssa.Go, *ssa.Defer:
-					cc := callCommon(x)
-					if cc.IsInvoke() && cc.Value == v && cc.Method.Name() == "Done" {
+// c18CtxBounds: the context value ctx reaches something that can bound the shutdown: a receive or select on its
+// Done channel, or a call that is handed the context (a repository callee is looked into: its parameter must in turn
+// reach such a use; logging the context does not count).
+func c18CtxBounds(ctx ssa.Value) bool {
+	used := false
+	seen := map[ssa.Value]bool{}
+	var visit func(v ssa.Value, depth int)
+	visit = func(v ssa.Value, depth int) {
+		if v == nil || seen[v] || depth > 12 || used {
+			return
+		}
+		seen[v] = true
+		refs := v.Referrers()
+		if refs == nil {
+			return
+		}
+		for _, r := range *refs {
+			switch x := r.(type) {
+			case *ssa.Call, *ssa.Go, *ssa.Defer:
+				cc := callCommon(x)
+				if cc.IsInvoke() && cc.Value == v {
+					if cc.Method.Name() == "Done" {
 						if val, ok := x.(ssa.Value); ok {
 							visit(val, depth+1)
 						}
-						continue
 					}
-					if cc.IsInvoke() && cc.Value == v {
-						continue // ctx.Err(), ctx.Value(): not a use that bounds anything
-					}
-					used = true
-				case *ssa.UnOp:
-					if x.Op == token.ARROW {
-						used = true
-					} else {
-						visit(x, depth+1)
-					}
-				case *ssa.Select:
-					used = true
-				case *ssa.MakeClosure:
-					// captured by a goroutine/closure: look inside
-					if fn, ok := x.Fn.(*ssa.Function); ok {
-						for k, b := range x.Bindings {
-							if b == v && k < len(fn.FreeVars) {
-								visit(fn.FreeVars[k], depth+1)
-							}
+					continue // ctx.Err(), ctx.Value(): not a use that bounds anything
+				}
+				if !cc.IsInvoke() && cc.Value == v {
+					continue // calling a function value derived from ctx: not modelled
+				}
+				n := calleeName(cc)
+				if strings.HasPrefix(n, "log.") || strings.HasPrefix(n, "fmt.") || strings.HasPrefix(n, "(*log.Logger)") {
+					continue
+				}
+				if sc := cc.StaticCallee(); sc != nil && isRepoFn(sc) && len(unwrap(sc).Blocks) > 0 {
+					g := unwrap(sc)
+					off := len(g.Params) - len(cc.Args) // a bound method value carries its receiver in the closure
+					for k, a := range cc.Args {
+						if a == v && off >= 0 && k+off < len(g.Params) {
+							visit(g.Params[k+off], depth+1)
 						}
 					}
-				case *ssa.Store:
-					if x.Val == v {
-						visit(x.Addr, depth+1)
-					}
-				case ssa.Value:
+					continue
+				}
+				used = true
+			case *ssa.UnOp:
+				if x.Op == token.ARROW {
+					used = true
+				} else {
 					visit(x, depth+1)
+				}
+			case *ssa.Select:
+				used = true
+			case *ssa.MakeClosure:
+				// captured by a goroutine/closure: look inside
+				if fn, ok := x.Fn.(*ssa.Function); ok {
+					for k, b := range x.Bindings {
+						if b == v && k < len(fn.FreeVars) {
+							visit(fn.FreeVars[k], depth+1)
+						}
+					}
+				}
+			case *ssa.Store:
+				if x.Val == v {
+					visit(x.Addr, depth+1)
+				}
+			case *ssa.Return:
+				// handed back to the callers of a helper: follow the results at its static call sites
+				if f := x.Parent(); f != nil {
+					for _, s := range gSites[f] {
+						if val := s.Value(); val != nil {
+							visit(val, depth+1)
+						}
+					}
+				}
+			case ssa.Value:
+				visit(x, depth+1)
+			}
+		}
+	}
+	visit(ctx, 0)
+	return used
+}
+
+// c18Unbounded: instruction i is a (synchronous) call that blocks until work of unknown duration has ended: the name of
+// the primitive, "" otherwise. WaitGroup.Wait is the join of a fan-out, not an unbounded wait, when the WaitGroup is a
+// local of the calling function and every goroutine this function starts with it runs no unbounded call itself
+// (`var wg sync.WaitGroup; for ... { wg.Add(1); go func() { defer wg.Done(); child.Shutdown(ctx) }() }; wg.Wait()`).
+func c18Unbounded(i ssa.Instruction, depth int) string {
+	if _, isGo := i.(*ssa.Go); isGo {
+		return ""
+	}
+	cc := callCommon(i)
+	if cc == nil {
+		return ""
+	}
+	n := calleeName(cc)
+	if !unboundedBlocking[n] {
+		return ""
+	}
+	if n != "(*sync.WaitGroup).Wait" || depth > 2 || len(cc.Args) == 0 {
+		return n
+	}
+	wg, isLocal := cc.Args[0].(*ssa.Alloc)
+	if !isLocal {
+		return n
+	}
+	started, bounded := 0, true
+	eachInstr(i.Parent(), func(g ssa.Instruction) {
+		goI, isGo := g.(*ssa.Go)
+		if !isGo {
+			return
+		}
+		uses := false
+		if mc, ok := goI.Call.Value.(*ssa.MakeClosure); ok {
+			for _, b := range mc.Bindings {
+				if b == wg {
+					uses = true
 				}
 			}
 		}
-		visit(ctx, 0)
-		c.check("C18.D1", fnKey(f)+"|ctx bounds the shutdown", f.Pos(), used,
-			"Shutdown(ctx) ignores its context: proxy.Shutdown waits for this call with wg.Wait(), so one never-ending stream or tunnel keeps shutdown from returning at all")
-		// no synchronous unbounded blocking call
-		bad := ""
-		var badPos token.Pos
-		seenF := map[*ssa.Function]bool{}
-		var scan func(g *ssa.Function, depth int)
-		scan = func(g *ssa.Function, depth int) {
-			if seenF[g] || depth > 3 {
-				return
+		for _, a := range goI.Call.Args {
+			if a == wg {
+				uses = true
 			}
-			seenF[g] = true
-			eachInstr(g, func(i ssa.Instruction) {
-				call, ok := i.(*ssa.Call) // synchronous only: Go/Defer excluded
-				if !ok {
-					return
-				}
-				n := calleeName(&call.Call)
-				if unboundedBlocking[n] {
-					bad, badPos = n, call.Pos()
-				}
-				if sc := call.Call.StaticCallee(); sc != nil && isRepoFn(sc) && len(sc.Blocks) > 0 {
-					scan(sc, depth+1)
+		}
+		if !uses {
+			return
+		}
+		started++
+		targets := c18Targets(&goI.Call)
+		if len(targets) == 0 {
+			bounded = false
+		}
+		for _, t := range targets {
+			eachInstrOf(c18SyncRegion(t, 2), func(_ *ssa.Function, bi ssa.Instruction) {
+				if c18Unbounded(bi, depth+1) != "" {
+					bounded = false
 				}
 			})
 		}
-		scan(f, 0)
+	})
+	// the WaitGroup is handed to nothing else than its own methods and those goroutines
+	for _, r := range *wg.Referrers() {
+		switch x := r.(type) {
+		case *ssa.MakeClosure:
+			isGoClosure := false
+			for _, rr := range *x.Referrers() {
+				if _, ok := rr.(*ssa.Go); ok {
+					isGoClosure = true
+				}
+			}
+			if !isGoClosure {
+				bounded = false
+			}
+		case *ssa.Go:
+		case *ssa.Call, *ssa.Defer:
+			if !strings.HasPrefix(calleeName(callCommon(x.(ssa.Instruction))), "(*sync.WaitGroup).") {
+				bounded = false
+			}
+		case *ssa.DebugRef:
+		default:
+			bounded = false
+		}
+	}
+	if started > 0 && bounded {
+		return ""
+	}
+	return n
+}
+
+// c18AfterUnbounded: instruction p (a close of / send on a completion channel) runs only after an unbounded blocking
+// call has returned: such a call (direct, or inside a helper run synchronously) precedes p in its function; p is
+// deferred (it runs at function exit, after everything else); or p's function is itself run after one (it is deferred
+// by, or called after the blocking call in, its caller). Returns the name of the blocking call, "" if none.
+func c18AfterUnbounded(p ssa.Instruction, depth int) string {
+	h := p.Parent()
+	if h == nil || depth > 2 {
+		return ""
+	}
+	_, deferred := p.(*ssa.Defer)
+	after := ""
+	eachInstr(h, func(b ssa.Instruction) {
+		if after != "" || b == p {
+			return
+		}
+		if _, isGo := b.(*ssa.Go); isGo {
+			return
+		}
+		cc := callCommon(b)
+		if cc == nil {
+			return
+		}
+		blocking := c18Unbounded(b, 0)
+		if blocking == "" {
+			for _, t := range c18Targets(cc) {
+				eachInstrOf(c18SyncRegion(t, 2), func(_ *ssa.Function, bi ssa.Instruction) {
+					if _, isGo := bi.(*ssa.Go); isGo {
+						return
+					}
+					if n := c18Unbounded(bi, 0); n != "" {
+						blocking = n
+					}
+				})
+			}
+		}
+		if blocking == "" {
+			return
+		}
+		if _, bDeferred := b.(*ssa.Defer); bDeferred && !deferred {
+			return // a deferred blocking call runs after a plain p
+		}
+		if deferred || canReach(b, p) {
+			after = blocking
+		}
+	})
+	if after != "" {
+		return after
+	}
+	for _, s := range gSites[h] {
+		if _, isGo := s.(*ssa.Go); isGo || s.Parent() == h {
+			continue
+		}
+		if a := c18AfterUnbounded(s, depth+1); a != "" {
+			return a
+		}
+	}
+	return ""
+}
+
+func runC18D1(c *Ctx) {
+	impls := shutdownImpls(c)
+	// what the property needs: the rule saw the implementations (fabio has three; merging or splitting server types
+	// must not trip the guard, finding none or one must)
+	c.atLeast("C18.D1", "implementations of proxy.Server.Shutdown(ctx)", len(impls), 2)
+	for _, f := range impls {
+		var ctx *ssa.Parameter
+		for _, p := range f.Params {
+			if c18IsCtx(p.Type()) {
+				ctx = p
+			}
+		}
+		if ctx == nil {
+			continue
+		}
+		c.check("C18.D1", fnKey(f)+"|ctx bounds the shutdown", f.Pos(), c18CtxBounds(ctx),
+			"Shutdown(ctx) ignores its context: proxy.Shutdown waits for this call with wg.Wait(), so one never-ending stream or tunnel keeps shutdown from returning at all")
+
+		// no synchronous unbounded blocking call: in the method and in everything it runs synchronously (calls and
+		// deferred calls; what a go statement starts is asynchronous)
+		sync := c18SyncRegion(f, 3)
+		bad := ""
+		var badPos token.Pos
+		eachInstrOf(sync, func(_ *ssa.Function, i ssa.Instruction) {
+			if _, isGo := i.(*ssa.Go); isGo {
+				return
+			}
+			if n := c18Unbounded(i, 0); n != "" {
+				bad, badPos = n, i.Pos()
+			}
+		})
 		pos := f.Pos()
 		if bad != "" {
 			pos = badPos
 		}
 		c.check("C18.D1", fnKey(f)+"|no synchronous unbounded wait", pos, bad == "",
 			"Shutdown(ctx) calls "+bad+" synchronously: it returns only when all open work ends, whatever the deadline; run it in a goroutine and race its completion against ctx.Done()")
+
+		// ... and no unconditional wait for a goroutine that itself waits without bound: a receive (or a select
+		// without a deadline / ctx.Done() case) on a channel that is closed or sent to only after an unbounded
+		// blocking call has returned
+		all := c18Region(c, sync...)
+		type producer struct {
+			roots map[*ssa.MakeChan]bool
+			after string
+		}
+		var producers []producer
+		eachInstrOf(all, func(h *ssa.Function, p ssa.Instruction) {
+			var ch ssa.Value
+			switch x := p.(type) {
+			case *ssa.Send:
+				ch = x.Chan
+			default:
+				if cc := callCommon(p); cc != nil && calleeName(cc) == "builtin.close" && len(cc.Args) == 1 {
+					ch = cc.Args[0]
+				}
+			}
+			if ch == nil {
+				return
+			}
+			after := c18AfterUnbounded(p, 0)
+			if after != "" {
+				producers = append(producers, producer{c18ChanRoots(ch), after})
+			}
+		})
+		wbad := ""
+		var wpos token.Pos
+		eachInstrOf(sync, func(_ *ssa.Function, i ssa.Instruction) {
+			w, ok := c18WaitOf(i)
+			if !ok || w.Deadline {
+				return
+			}
+			// after a forced stop the awaited work is known to end (Trusted)
+			forced := false
+			eachInstr(i.Parent(), func(s ssa.Instruction) {
+				if cc := callCommon(s); cc != nil && forcedStop[calleeName(cc)] && dominatesInstr(s, i) {
+					forced = true
+				}
+			})
+			if forced {
+				return
+			}
+			for _, ch := range w.Chans {
+				roots := c18ChanRoots(ch)
+				for _, p := range producers {
+					for mc := range roots {
+						if p.roots[mc] {
+							wbad, wpos = p.after, i.Pos()
+						}
+					}
+				}
+			}
+		})
+		pos = f.Pos()
+		if wbad != "" {
+			pos = wpos
+		}
+		c.check("C18.D1", fnKey(f)+"|no unconditional wait for an unbounded goroutine", pos, wbad == "",
+			"Shutdown(ctx) blocks on a channel that is signalled only after "+wbad+" has returned, without a ctx.Done() alternative: moving the unbounded wait into a goroutine does not bound the shutdown if its completion is then awaited unconditionally (a handler stuck in a dial or a never-ending stream keeps it from returning)")
 	}
 }
 
+// c18ShutdownInvoke: i invokes Shutdown(ctx) through an interface (the Server interface, or any interface with that method).
+func c18ShutdownInvoke(i ssa.Instruction) *ssa.CallCommon {
+	cc := callCommon(i)
+	if cc == nil || !cc.IsInvoke() || cc.Method.Name() != "Shutdown" || len(cc.Args) != 1 || !c18IsCtx(cc.Args[0].Type()) {
+		return nil
+	}
+	return cc
+}
+
 func runC18D2J1(c *Ctx) {
-	sd := c.fn("proxy", "Shutdown")
+	sd := c.fn("proxy", "Shutdown") // exported API
 	if !c.need("C18.D2", sd, "proxy.Shutdown") {
 		return
 	}
+	if len(sd.Params) != 1 {
+		c.undecided("C18.D2", "proxy.Shutdown|timeout parameter", "proxy.Shutdown no longer has exactly one parameter")
+		return
+	}
 	timeout := sd.Params[0]
-	fns := withAnon(sd)
-	// D2: every Shutdown(ctx) invoke inside gets a ctx from WithTimeout/WithDeadline(Background, <timeout-derived>)
+	reg := c18Region(c, sd)
+	// D2: every Shutdown(ctx) invoke in the region of proxy.Shutdown gets a ctx from WithTimeout/WithDeadline(Background, <timeout-derived>)
 	n := 0
-	for _, f := range fns {
-		eachInstr(f, func(i ssa.Instruction) {
-			cc := callCommon(i)
-			if cc == nil || !cc.IsInvoke() || cc.Method.Name() != "Shutdown" || len(cc.Args) != 1 {
-				return
+	var invokes []ssa.Instruction
+	eachInstrOf(reg, func(f *ssa.Function, i ssa.Instruction) {
+		cc := c18ShutdownInvoke(i)
+		if cc == nil {
+			return
+		}
+		n++
+		invokes = append(invokes, i)
+		ok := false
+		derives(cc.Args[0], func(v ssa.Value) bool {
+			call, isCall := v.(*ssa.Call)
+			if !isCall {
+				return false
 			}
-			n++
-			ok := false
-			derives(cc.Args[0], func(v ssa.Value) bool {
-				call, isCall := v.(*ssa.Call)
-				if !isCall {
-					return false
-				}
-				name := calleeName(&call.Call)
-				if name != "context.WithTimeout" && name != "context.WithDeadline" {
-					return false
-				}
-				_, bg := isCallTo(call.Call.Args[0], "context.Background")
-				fromParam := derivesAcrossClosure(call.Call.Args[1], timeout, f)
-				if bg && fromParam {
-					ok = true
-				}
-				return true
+			name := calleeName(&call.Call)
+			switch name {
+			case "context.WithTimeout", "context.WithDeadline", "context.WithTimeoutCause", "context.WithDeadlineCause":
+			default:
+				return false
+			}
+			bg := derives(call.Call.Args[0], func(p ssa.Value) bool {
+				_, is := isCallTo(p, "context.Background", "context.TODO")
+				return is
 			})
-			c.check("C18.D2", "proxy.Shutdown|per-server context carries the wait", i.Pos(), ok,
-				"each server's Shutdown must receive context.WithTimeout(context.Background(), timeout) with the timeout parameter of proxy.Shutdown; otherwise the configured proxy.shutdownwait does not bound it")
+			fromParam := derives(call.Call.Args[1], func(p ssa.Value) bool { return p == timeout })
+			if bg && fromParam {
+				ok = true
+			}
+			return true
+		})
+		c.check("C18.D2", "proxy.Shutdown|per-server context carries the wait", i.Pos(), ok,
+			"each server's Shutdown must receive context.WithTimeout(context.Background(), timeout) with the timeout parameter of proxy.Shutdown; otherwise the configured proxy.shutdownwait does not bound it")
+	})
+	c.atLeast("C18.D2", "Server.Shutdown invocations in proxy.Shutdown", n, 1)
+
+	// the fan-out: go statements of the region whose goroutine (with what it calls) performs a server Shutdown
+	isInvoke := func(i ssa.Instruction) bool {
+		for _, x := range invokes {
+			if x == i {
+				return true
+			}
+		}
+		return false
+	}
+	type fanOut struct {
+		goI  *ssa.Go
+		body []*ssa.Function
+	}
+	var fans []fanOut
+	eachInstrOf(reg, func(_ *ssa.Function, i ssa.Instruction) {
+		g, isGo := i.(*ssa.Go)
+		if !isGo {
+			return
+		}
+		targets := c18Targets(&g.Call)
+		does := false
+		eachInstrOf(c18Region(c, targets...), func(_ *ssa.Function, x ssa.Instruction) {
+			if isInvoke(x) {
+				does = true
+			}
+		})
+		if does {
+			fans = append(fans, fanOut{g, targets})
+		}
+	})
+
+	// the context of one server is not cancelled by another: a cancel function handed to a per-server goroutine (captured
+	// or passed) belongs to a context created outside it - the first server to finish cancels it for all the others
+	isCancel := func(v ssa.Value) bool {
+		return derives(v, func(x ssa.Value) bool {
+			ex, ok := x.(*ssa.Extract)
+			if !ok || ex.Index != 1 {
+				return false
+			}
+			_, isCtx := isCallTo(ex.Tuple, "context.WithTimeout", "context.WithDeadline", "context.WithCancel", "context.WithCancelCause", "context.WithTimeoutCause", "context.WithDeadlineCause")
+			return isCtx
 		})
 	}
-	c.atLeast("C18.D2", "Server.Shutdown invocations in proxy.Shutdown", n, 1)
-	// the context of one server is not cancelled by another: a cancel function captured by a closure that is started
-	// with `go` (once per server) belongs to a context shared by all of them — the first server to finish cancels it
-	for _, f := range c.region(sd) {
-		eachInstr(f, func(i ssa.Instruction) {
-			g, isGo := i.(*ssa.Go)
-			if !isGo {
-				return
-			}
-			mc, isMC := g.Call.Value.(*ssa.MakeClosure)
-			if !isMC {
-				return
-			}
-			shared := false
+	for _, fan := range fans {
+		shared := false
+		if mc, isMC := fan.goI.Call.Value.(*ssa.MakeClosure); isMC {
 			for _, b := range mc.Bindings {
-				if derives(b, func(v ssa.Value) bool {
-					ex, ok := v.(*ssa.Extract)
-					if !ok || ex.Index != 1 {
-						return false
-					}
-					_, isCtx := isCallTo(ex.Tuple, "context.WithTimeout", "context.WithDeadline", "context.WithCancel")
-					return isCtx
-				}) {
+				if isCancel(b) {
 					shared = true
 				}
 			}
-			c.check("C18.D2", fnKey(f)+"|no cancel function shared between the per-server goroutines", i.Pos(), !shared,
-				"a goroutine started per server captures the cancel function of a context created outside it: the first server that finishes its Shutdown cancels the context of all the others, whose in-flight work is then cut before the wait has elapsed")
-		})
+		}
+		for _, a := range fan.goI.Call.Args {
+			if isCancel(a) {
+				shared = true
+			}
+		}
+		c.check("C18.D2", fnKey(fan.goI.Parent())+"|no cancel function shared between the per-server goroutines", fan.goI.Pos(), !shared,
+			"a goroutine started per server captures the cancel function of a context created outside it: the first server that finishes its Shutdown cancels the context of all the others, whose in-flight work is then cut before the wait has elapsed")
 	}
+
 	// main passes cfg.Proxy.ShutdownWait
 	nm := 0
 	for _, f := range c.AllFns {
@@ -252,140 +607,230 @@ func runC18D2J1(c *Ctx) {
 			}
 			nm++
 			cc := callCommon(i)
-			_, ok := fieldOf(cc.Args[0], "config.Proxy", "ShutdownWait")
+			ok := derives(cc.Args[0], func(v ssa.Value) bool {
+				_, is := fieldOf(v, "config.Proxy", "ShutdownWait")
+				return is
+			})
 			c.check("C18.D2", fnKey(f)+"|proxy.Shutdown(cfg.Proxy.ShutdownWait)", i.Pos(), ok, "proxy.Shutdown must be given the configured proxy.shutdownwait; got "+shortPath(cc.Args[0]))
 		})
 	}
 	c.atLeast("C18.D2", "calls of proxy.Shutdown", nm, 1)
 
 	// J1
-	var goI *ssa.Go
-	var adds, waits []ssa.Instruction
-	eachInstr(sd, func(i ssa.Instruction) {
-		if g, ok := i.(*ssa.Go); ok {
-			goI = g
-		}
-		if cc := callCommon(i); cc != nil {
-			switch calleeName(cc) {
-			case "(*sync.WaitGroup).Add":
-				adds = append(adds, i)
-			case "(*sync.WaitGroup).Wait":
-				if _, isCall := i.(*ssa.Call); isCall {
-					waits = append(waits, i)
-				}
-			}
-		}
-	})
-	if goI == nil {
-		c.undecided("C18.J1", "proxy.Shutdown|fan-out goroutine", "no go statement found")
+	if len(fans) == 0 {
+		c.undecided("C18.J1", "proxy.Shutdown|fan-out goroutine", "no go statement that performs a server Shutdown found in the region of proxy.Shutdown")
 		return
 	}
-	okAdd := false
-	for _, a := range adds {
-		if dominatesInstr(a, goI) && a.Block() == goI.Block() {
-			okAdd = true
+	// the join: a sync.WaitGroup (Add / Done / Wait), or - when the region uses no WaitGroup at all - a channel every
+	// per-server goroutine sends on (or closes) and the starting side receives from
+	usesWG := false
+	eachInstrOf(reg, func(_ *ssa.Function, i ssa.Instruction) {
+		if cc := callCommon(i); cc != nil && strings.HasPrefix(calleeName(cc), "(*sync.WaitGroup).") {
+			usesWG = true
 		}
-	}
-	c.check("C18.J1", "proxy.Shutdown|wg.Add before go", goI.Pos(), okAdd, "wg.Add(1) must precede each go statement in the same iteration; otherwise Wait can return before the server shutdowns ran")
-	// Done deferred in the goroutine
-	okDone := false
-	if mc, ok := goI.Call.Value.(*ssa.MakeClosure); ok {
-		g := mc.Fn.(*ssa.Function)
-		eachInstr(g, func(i ssa.Instruction) {
-			if d, ok := i.(*ssa.Defer); ok && calleeName(&d.Call) == "(*sync.WaitGroup).Done" && d.Block() == g.Blocks[0] {
-				okDone = true
-			}
-		})
-	}
-	c.check("C18.J1", "proxy.Shutdown|Done deferred in the goroutine", goI.Pos(), okDone, "the goroutine must defer wg.Done() at its start so that a panicking or early-returning server shutdown still releases the waiter")
-	// Wait after the loop: not inside any loop containing the go, and reachable only after it
-	okWait := len(waits) > 0
-	for _, w := range waits {
-		for _, l := range loopsOf(sd) {
-			if l.Body[goI.Block()] && l.Body[w.Block()] {
-				okWait = false
-			}
+	})
+	joinChans := map[*ssa.MakeChan]bool{}
+	chanOf := func(i ssa.Instruction) ssa.Value {
+		if _, isGo := i.(*ssa.Go); isGo {
+			return nil
 		}
-		if !pathAvoiding(goI, w, nil) {
-			okWait = false
+		if s, ok := i.(*ssa.Send); ok {
+			return s.Chan
 		}
+		if cc := callCommon(i); cc != nil && calleeName(cc) == "builtin.close" && len(cc.Args) == 1 {
+			return cc.Args[0]
+		}
+		return nil
 	}
-	// every return must pass through Wait
-	if okWait {
-		if _, open := exitReachableAvoiding(goI, func(i ssa.Instruction) bool {
-			for _, w := range waits {
-				if i == w {
-					return true
-				}
-			}
+	onJoinChan := func(ch ssa.Value) bool {
+		if ch == nil {
 			return false
-		}); open {
-			okWait = false
 		}
-	}
-	c.check("C18.J1", "proxy.Shutdown|Wait after the fan-out loop", goI.Pos(), okWait, "wg.Wait() must follow the loop that starts the per-server shutdowns (outside the loop, on every path to return): waiting inside the loop serialises the servers, so total time is the sum of the waits")
-	// the registry lock is not held while waiting
-	held := false
-	for _, w := range waits {
-		if len(heldAt(w, false)) > 0 {
-			held = true
-		}
-		// deferred unlocks keep the lock until return
-		eachInstr(sd, func(i ssa.Instruction) {
-			if _, k := lockCallKind(i); k == "defer-unlock" {
-				held = true
+		for mc := range c18ChanRoots(ch) {
+			if joinChans[mc] {
+				return true
 			}
-		})
+		}
+		return false
 	}
-	c.check("C18.J1", "proxy.Shutdown|registry lock released before waiting", goI.Pos(), !held, "the servers map lock must be released before wg.Wait(): serve()/CloseProxy block on it for the whole shutdown otherwise")
-}
-
-// derivesAcrossClosure: v (in closure f) derives from parameter p of the enclosing function, possibly via a captured cell.
-func derivesAcrossClosure(v ssa.Value, p *ssa.Parameter, f *ssa.Function) bool {
-	return derives(v, func(x ssa.Value) bool {
-		if x == p {
+	if !usesWG {
+		for _, fan := range fans {
+			eachInstrOf(c18Region(c, fan.body...), func(_ *ssa.Function, i ssa.Instruction) {
+				for mc := range c18ChanRoots(chanOf(i)) {
+					joinChans[mc] = true
+				}
+			})
+		}
+	}
+	chanJoin := !usesWG && len(joinChans) > 0
+	isAdd := func(i ssa.Instruction) bool {
+		call, ok := i.(*ssa.Call)
+		return ok && calleeName(&call.Call) == "(*sync.WaitGroup).Add"
+	}
+	isWait := func(i ssa.Instruction) bool {
+		if chanJoin {
+			u, ok := i.(*ssa.UnOp)
+			return ok && u.Op == token.ARROW && onJoinChan(u.X)
+		}
+		call, ok := i.(*ssa.Call)
+		return ok && calleeName(&call.Call) == "(*sync.WaitGroup).Wait"
+	}
+	doneOp := func(j ssa.Instruction) bool {
+		if _, isGo := j.(*ssa.Go); isGo {
+			return false
+		}
+		if chanJoin {
+			return onJoinChan(chanOf(j))
+		}
+		jc := callCommon(j)
+		return jc != nil && calleeName(jc) == "(*sync.WaitGroup).Done"
+	}
+	isDone := func(i ssa.Instruction) bool {
+		if doneOp(i) {
 			return true
 		}
-		fv, ok := x.(*ssa.FreeVar)
-		if !ok || f.Parent() == nil {
-			return false
-		}
-		// find binding in parent
-		for _, b := range f.Parent().Blocks {
-			for _, in := range b.Instrs {
-				mc, ok := in.(*ssa.MakeClosure)
-				if !ok || mc.Fn != f {
-					continue
-				}
-				for k, fvv := range f.FreeVars {
-					if fvv != fv {
-						continue
-					}
-					bind := mc.Bindings[k]
-					if bind == p {
-						return true
-					}
-					if a, ok := bind.(*ssa.Alloc); ok {
-						for _, r := range *a.Referrers() {
-							if st, ok := r.(*ssa.Store); ok && st.Addr == a && (st.Val == p || derives(st.Val, func(y ssa.Value) bool { return y == p })) {
-								return true
-							}
-						}
-					}
+		// defer func() { ...; wg.Done() }()
+		if d, isDefer := i.(*ssa.Defer); isDefer {
+			for _, t := range c18Targets(&d.Call) {
+				if mustExec(t, doneOp, 1) {
+					return true
 				}
 			}
 		}
 		return false
+	}
+	inLoopsOf := func(a, g ssa.Instruction) bool {
+		// a runs in every iteration of every loop that contains g
+		if a.Parent() != g.Parent() {
+			return false
+		}
+		for _, l := range loopsOf(g.Parent()) {
+			if l.Body[g.Block()] && !l.Body[a.Block()] {
+				return false
+			}
+		}
+		return true
+	}
+	for _, fan := range fans {
+		goI := fan.goI
+		key := "proxy.Shutdown"
+		// wg.Add before go: in the same iteration (or once for all with a computed count), in the function of the go
+		// statement or before every call of the helper that contains it
+		var okAdd func(at ssa.Instruction, depth int) bool
+		okAdd = func(at ssa.Instruction, depth int) bool {
+			f := at.Parent()
+			found := false
+			eachInstr(f, func(a ssa.Instruction) {
+				if !isAdd(a) || !dominatesInstr(a, at) {
+					return
+				}
+				_, constCount := constInt(callCommon(a).Args[1])
+				if inLoopsOf(a, at) || !constCount {
+					found = true
+				}
+			})
+			if found {
+				return true
+			}
+			if depth >= 2 || !c18OnlyStatic(f) || len(gSites[f]) == 0 {
+				return false
+			}
+			for _, s := range gSites[f] {
+				if s.Parent() == f || !okAdd(s, depth+1) {
+					return false
+				}
+			}
+			return true
+		}
+		c.check("C18.J1", key+"|wg.Add before go", goI.Pos(), chanJoin || okAdd(goI, 0), "wg.Add(1) must precede each go statement in the same iteration; otherwise Wait can return before the server shutdowns ran")
+
+		// Done on every way out of the goroutine (deferred, or explicitly on every path to return)
+		okDone := len(fan.body) > 0
+		for _, g := range fan.body {
+			if !mustExec(g, isDone, 0) {
+				okDone = false
+			}
+		}
+		c.check("C18.J1", key+"|Done deferred in the goroutine", goI.Pos(), okDone, "the goroutine must defer wg.Done() at its start so that a panicking or early-returning server shutdown still releases the waiter")
+
+		// Wait follows the fan-out on every path to return (in the function of the go statement or after every call of
+		// the helper containing it) and no loop contains both the start of a server shutdown and the Wait
+		okWait := c18FollowedBy(goI, isWait, 0)
+		if chanJoin {
+			// the receives sit in a loop of their own (one per server): some receive follows the fan-out
+			okWait = c18MayFollow(goI, isWait, 0)
+		}
+		isFan := func(i ssa.Instruction) bool { return i == goI }
+		for _, g := range reg {
+			for _, l := range loopsOf(g) {
+				hasGo, hasWait := false, false
+				for b := range l.Body {
+					for _, in := range b.Instrs {
+						if c18LiftMay(isFan)(in) {
+							hasGo = true
+						}
+						if c18LiftMay(isWait)(in) {
+							hasWait = true
+						}
+					}
+				}
+				if hasGo && hasWait {
+					okWait = false
+				}
+			}
+		}
+		c.check("C18.J1", key+"|Wait after the fan-out loop", goI.Pos(), okWait, "wg.Wait() must follow the loop that starts the per-server shutdowns (outside the loop, on every path to return): waiting inside the loop serialises the servers, so total time is the sum of the waits")
+	}
+	// the registry lock is not held while waiting (wherever the Wait is: in proxy.Shutdown or in a helper called with the lock held)
+	held := false
+	nw := 0
+	var heldPos token.Pos
+	eachInstrOf(reg, func(_ *ssa.Function, i ssa.Instruction) {
+		if !c18LiftMay(isWait)(i) {
+			return
+		}
+		if isWait(i) {
+			nw++
+		}
+		if len(heldAt(i, false)) > 0 {
+			held, heldPos = true, i.Pos()
+		}
 	})
+	if nw == 0 {
+		return // reported above: no Wait follows the fan-out
+	}
+	c.check("C18.J1", "proxy.Shutdown|registry lock released before waiting", heldPos, !held, "the servers map lock must be released before wg.Wait(): serve()/CloseProxy block on it for the whole shutdown otherwise")
 }
 
-// runLockPairing (E7): every non-deferred Lock/RLock is released on every path to every return.
+// runLockPairing (E7): every Lock/RLock is released on every path to every return - by an Unlock of the same mutex
+// (called, deferred, inside a deferred closure, or inside a helper that unlocks on all its paths). A helper whose only
+// job is to acquire (it never releases the mutex and is only called statically) is judged at its call sites.
 func runLockPairing(c *Ctx, rule string, pkgs []string) {
 	n := 0
+	releases := func(key, want string) func(ssa.Instruction) bool {
+		direct := func(i ssa.Instruction) bool {
+			if _, isGo := i.(*ssa.Go); isGo {
+				return false
+			}
+			k, kind := c18LockOp(i)
+			return k == key && (kind == want || kind == "defer-"+want)
+		}
+		return func(i ssa.Instruction) bool {
+			if direct(i) {
+				return true
+			}
+			if d, isDefer := i.(*ssa.Defer); isDefer {
+				if sc := d.Call.StaticCallee(); sc != nil && isRepoFn(sc) {
+					return mustExec(unwrap(sc), direct, 1)
+				}
+			}
+			return false
+		}
+	}
 	for _, f := range c.AllFns {
 		in := false
 		for _, p := range pkgs {
-			if f.Pkg != nil && f.Pkg == c.spkg(p) || (f.Parent() != nil && rootPkg(f) == c.spkg(p)) {
+			if sp := c.spkg(p); sp != nil && rootPkg(f) == sp {
 				in = true
 			}
 		}
@@ -393,7 +838,7 @@ func runLockPairing(c *Ctx, rule string, pkgs []string) {
 			continue
 		}
 		eachInstr(f, func(l ssa.Instruction) {
-			path, kind := lockCallKind(l)
+			key, kind := c18LockOp(l)
 			if kind != "lock" && kind != "rlock" {
 				return
 			}
@@ -402,19 +847,40 @@ func runLockPairing(c *Ctx, rule string, pkgs []string) {
 			if kind == "rlock" {
 				want = "runlock"
 			}
-			ret, open := exitReachableAvoiding(l, func(i ssa.Instruction) bool {
-				p, k := lockCallKind(i)
-				return p == path && (k == want || k == "defer-"+want)
-			})
-			pos := l.Pos()
+			rel := releases(key, want)
+			ret, open := exitReachableAvoiding(l, rel)
 			if open {
+				// an acquire helper: no release of this mutex anywhere in it, every caller known
+				anyRel := false
+				eachInstr(f, func(i ssa.Instruction) {
+					if rel(i) {
+						anyRel = true
+					}
+				})
+				if !anyRel && c18OnlyStatic(f) && len(gSites[f]) > 0 {
+					open = false
+					for _, s := range gSites[f] {
+						if _, isCall := s.(*ssa.Call); !isCall {
+							open = true
+							continue
+						}
+						if r2, o2 := exitReachableAvoiding(s, rel); o2 {
+							open, ret = true, r2
+						}
+					}
+				}
+			}
+			pos := l.Pos()
+			if open && ret != nil {
 				pos = ret.Pos()
 			}
-			c.check(rule, fnKey(f)+"|"+kind+" "+strings.TrimPrefix(path, "proxy.")+" released on every path", pos, !open,
+			c.check(rule, fnKey(f)+"|"+kind+" "+strings.TrimPrefix(key, "proxy.")+" released on every path", pos, !open,
 				"a path from this "+kind+" reaches a return without releasing the mutex: every later Lock (e.g. in proxy.Shutdown) blocks forever")
 		})
 	}
-	c.atLeast(rule, "lock acquisitions", n, 8)
+	// the property needs the registry lock and the tcp server's lock to be looked at; their critical sections may be
+	// merged into few helpers
+	c.atLeast(rule, "lock acquisitions", n, 3)
 }
 
 func rootPkg(f *ssa.Function) *ssa.Package {
@@ -422,198 +888,4 @@ func rootPkg(f *ssa.Function) *ssa.Package {
 		f = f.Parent()
 	}
 	return f.Pkg
-}
-
-func runC18O1(c *Ctx) {
-	sd := c.method("proxy/tcp", "Server", "Shutdown")
-	if !c.need("C18.O1", sd, "tcp.Server.Shutdown") {
-		return
-	}
-	closesField := func(g *ssa.Function, field string) bool {
-		// g (transitively, depth 2) calls Close on elements of s.<field>
-		found := false
-		var scan func(h *ssa.Function, d int)
-		scan = func(h *ssa.Function, d int) {
-			if d > 2 || h == nil {
-				return
-			}
-			eachInstr(h, func(i ssa.Instruction) {
-				cc := callCommon(i)
-				if cc == nil {
-					return
-				}
-				if cc.IsInvoke() && cc.Method.Name() == "Close" {
-					if derives(cc.Value, func(v ssa.Value) bool { _, ok := fieldOf(v, "tcp.Server", field); return ok }) {
-						found = true
-					}
-					// ranging over a map: key/value extracted from a Range over the field
-					if derives(cc.Value, func(v ssa.Value) bool {
-						if e, ok := v.(*ssa.Extract); ok {
-							if nx, ok := e.Tuple.(*ssa.Next); ok {
-								if rg, ok := nx.Iter.(*ssa.Range); ok {
-									_, isF := fieldOf(rg.X, "tcp.Server", field)
-									return isF
-								}
-							}
-						}
-						return false
-					}) {
-						found = true
-					}
-				}
-				if sc := cc.StaticCallee(); sc != nil && isRepoFn(sc) {
-					scan(sc, d+1)
-				}
-			})
-		}
-		scan(g, 0)
-		return found
-	}
-	var lisCall, connCall ssa.Instruction
-	var waitI ssa.Instruction
-	eachInstr(sd, func(i ssa.Instruction) {
-		if cc := callCommon(i); cc != nil {
-			if sc := cc.StaticCallee(); sc != nil && isRepoFn(sc) {
-				if closesField(sc, "listeners") && lisCall == nil {
-					lisCall = i
-				}
-				if closesField(sc, "conns") {
-					connCall = i
-				}
-			}
-		}
-		if u, ok := i.(*ssa.UnOp); ok && u.Op == token.ARROW {
-			if call, ok := u.X.(*ssa.Call); ok && call.Call.IsInvoke() && call.Call.Method.Name() == "Done" {
-				waitI = i
-			}
-		}
-	})
-	if lisCall == nil || connCall == nil || waitI == nil {
-		c.undecided("C18.O1", "(*proxy/tcp.Server).Shutdown|close listeners / wait on ctx / close connections", "one of the three steps was not found")
-		return
-	}
-	c.check("C18.O1", "(*proxy/tcp.Server).Shutdown|listeners closed before the wait", lisCall.Pos(), dominatesInstr(lisCall, waitI),
-		"the listeners must be closed before waiting on ctx.Done(): otherwise new connections are accepted during the whole shutdown wait")
-	c.check("C18.O1", "(*proxy/tcp.Server).Shutdown|connections closed after the wait", connCall.Pos(), !pathAvoiding(connCall, waitI, nil) && pathAvoiding(waitI, connCall, nil),
-		"open connections must be closed only after the wait: closing them first cuts tunnels that would have finished within the configured wait")
-}
-
-func runC18R1(c *Ctx) {
-	sp := c.spkg("proxy")
-	serve := c.fn("proxy", "serve")
-	if sp == nil || !c.need("C18.R1", serve, "proxy.serve") {
-		return
-	}
-	// serve registers the server under the lock before serving
-	reg := false
-	var regI, srvI ssa.Instruction
-	eachInstr(serve, func(i ssa.Instruction) {
-		if mu, ok := i.(*ssa.MapUpdate); ok {
-			if u, ok := mu.Map.(*ssa.UnOp); ok {
-				if g, ok := u.X.(*ssa.Global); ok && g.Name() == "servers" {
-					reg = len(heldAt(i, true)) > 0
-					regI = i
-				}
-			}
-		}
-		if cc := callCommon(i); cc != nil && cc.IsInvoke() && cc.Method.Name() == "Serve" {
-			srvI = i
-		}
-	})
-	c.check("C18.R1", "proxy.serve|registers the server under the lock before serving", serve.Pos(), reg && regI != nil && srvI != nil && dominatesInstr(regI, srvI),
-		"serve() must enter the server into the registry (under mu) before calling Serve: proxy.Shutdown only reaches registered servers")
-	n := 0
-	for _, f := range c.AllFns {
-		if rootPkg(f) != sp {
-			continue
-		}
-		eachInstr(f, func(i ssa.Instruction) {
-			cc := callCommon(i)
-			if cc == nil || !cc.IsInvoke() || cc.Method.Name() != "Serve" || !namedIs(cc.Value.Type(), "proxy.Server") {
-				return
-			}
-			n++
-			root := f
-			for root.Parent() != nil {
-				root = root.Parent()
-			}
-			ok := root == serve || (root.Signature.Recv() != nil && root.Name() == "Serve")
-			c.check("C18.R1", fnKey(root)+"|Serve called on a proxy.Server", i.Pos(), ok,
-				"a server started without going through serve() is not in the registry, so proxy.Shutdown never stops it (its listener keeps accepting after shutdown began)")
-		})
-	}
-	c.atLeast("C18.R1", "Serve invocations on proxy.Server", n, 2)
-	// every ListenAndServe* returns through serve()
-	nl := 0
-	for _, m := range sp.Members {
-		f, ok := m.(*ssa.Function)
-		if !ok || !strings.HasPrefix(f.Name(), "ListenAndServe") {
-			continue
-		}
-		nl++
-		calls := false
-		eachInstr(f, func(i ssa.Instruction) {
-			if staticCalleeIs(i, serve) {
-				calls = true
-			}
-		})
-		c.check("C18.R1", fnKey(f)+"|serves through serve()", f.Pos(), calls, "every ListenAndServe* must start its server through serve() so that it is registered for shutdown")
-	}
-	c.atLeast("C18.R1", "ListenAndServe* functions", nl, 4)
-}
-
-func runC18E1(c *Ctx) {
-	mainFn := c.fn("main", "main")
-	sd := c.fn("proxy", "Shutdown")
-	if !c.need("C18.E1", mainFn, "main.main") || sd == nil {
-		return
-	}
-	var cb *ssa.Function
-	for _, f := range withAnon(mainFn) {
-		eachInstr(f, func(i ssa.Instruction) {
-			if staticCalleeIs(i, sd) {
-				cb = f
-			}
-		})
-	}
-	if cb == nil {
-		c.undecided("C18.E1", "main.main|exit callback", "no closure of main calls proxy.Shutdown")
-		return
-	}
-	// it is the argument of exit.Listen
-	registered := false
-	eachInstr(mainFn, func(i ssa.Instruction) {
-		cc := callCommon(i)
-		if cc == nil || calleeName(cc) != repoMod+"/exit.Listen" {
-			return
-		}
-		if mc, ok := cc.Args[0].(*ssa.MakeClosure); ok && mc.Fn == cb {
-			registered = true
-		}
-	})
-	c.check("C18.E1", "main.main|exit callback registered with exit.Listen", cb.Pos(), registered, "the shutdown sequence must be the callback given to exit.Listen")
-	var dereg, sleep, shut ssa.Instruction
-	eachInstr(cb, func(i ssa.Instruction) {
-		cc := callCommon(i)
-		if cc == nil {
-			return
-		}
-		switch {
-		case cc.IsInvoke() && cc.Method.Name() == "DeregisterAll":
-			dereg = i
-		case calleeName(cc) == "time.Sleep":
-			if _, ok := fieldOf(cc.Args[0], "config.Proxy", "DeregisterGracePeriod"); ok {
-				sleep = i
-			}
-		case cc.StaticCallee() == sd:
-			shut = i
-		}
-	})
-	if dereg == nil || sleep == nil || shut == nil {
-		c.check("C18.E1", "main.main$exit|deregister, grace sleep, shutdown all present", cb.Pos(), false, "the exit callback must deregister from the registry, sleep proxy.deregistergraceperiod and then call proxy.Shutdown")
-		return
-	}
-	order := !pathAvoiding(sleep, dereg, nil) && !pathAvoiding(shut, sleep, nil) && !pathAvoiding(shut, dereg, nil) && dominatesInstr(sleep, shut)
-	c.check("C18.E1", "main.main$exit|deregister -> grace sleep -> proxy.Shutdown", shut.Pos(), order,
-		"order matters: the instance must leave the registry and wait the grace period before listeners stop accepting, otherwise balancers still send new connections to closed listeners")
 }
